@@ -15,8 +15,8 @@ attribute [local irreducible] DM.rread DM.sread DM.swrite DM.bwrite DM.bread DM.
   calculateBwRegister rssiRefine snrOf bandwidthOfCode F.lt F.gt F.le F.toSInt F.toUInt F.ofBits32 F.div F.ofNat
 
 /-- the kinds of undefined behaviour excluded here: everything but an out-of-range float→integer
-    conversion, exhausted fuel of a chip-bounded loop, and the shadow arrays (C01/C19) -/
-def memBad (u : UB) : Prop := u ≠ .castRange ∧ u ≠ .fuel ∧ u ≠ .oobShadow
+    conversion and exhausted fuel of a chip-bounded loop -/
+def memBad (u : UB) : Prop := u ≠ .castRange ∧ u ≠ .fuel
 
 instance (u : UB) : Decidable (memBad u) := by unfold memBad; exact inferInstance
 
